@@ -1,4 +1,8 @@
 import Xp.Proofs.C15
+import Xp.Proofs.C15Ext
+import Xp.Proofs.C15Tee
+import Xp.Proofs.C15Split
+import Xp.Model.C15Skel
 /-
 C15 — a package revision installs exactly what its image declares, and only
 permitted kinds.
@@ -53,6 +57,47 @@ theorem lint_within_spec (t : PType) (p : Pkg) (h : lint t p = true) : specOK t 
   · intro o hoo
     exact ho' _ (by simpa using h3 o hoo)
 
+/-! ### the linters as lint.go composes them
+
+The reconciler model lints with `lintS`, computed from the composition of the three
+constructors (`Xp.Gen.c15Lint*`, read from the source by go/ast) and the per-check acceptance
+tables (`Xp.Gen.c15CheckAccepts`, every exported check called on every scheme kind). -/
+
+/-- Table obligation: every linter has object checks, and what its checks accept – on objects
+and on meta objects – is allowed by the specification.  False when a linter loses its object
+checks (D7) or an `Or` gains a member that accepts a foreign kind. -/
+theorem lint_structure_within_spec (t : PType) :
+    objFnsWithin t (specObjKinds t) = true ∧ metaFnsWithin t (specMetaKinds t) = true ∧
+    lintPkgFns t = ["OneMeta"] ∧ (lintMetaFns t).contains "PackageValidSemver" = true := by
+  cases t <;> decide
+
+/-- The composition read from the source and the whole-linter probe (real parser + real linter
+on one stream per scheme kind) agree on every kind of the two schemes: two independent
+readings of lint.go. -/
+theorem lint_structure_matches_probe (t : PType) :
+    Xp.Gen.c15ObjectKinds.all (fun k => objKindOk t k == (lintObjKinds t).contains k) = true ∧
+    Xp.Gen.c15MetaKinds.all (fun k => metaKindOk t k == (lintMetaKinds t).contains k) = true := by
+  cases t <;> decide
+
+/-- A package the structural linter passes – ANY kinds, not only scheme kinds – is installable
+as the specification words it. -/
+theorem lintS_within_spec (t : PType) (p : Pkg) (h : lintS t p = true) : specOK t p = true := by
+  obtain ⟨ho, hm, hp, hv⟩ := lint_structure_within_spec t
+  simp only [lintS, Bool.and_eq_true, List.all_eq_true] at h
+  obtain ⟨⟨h1, h2⟩, h3⟩ := h
+  simp only [specOK, Bool.and_eq_true, List.all_eq_true]
+  refine ⟨⟨?_, ?_⟩, ?_⟩
+  · have := h1 "OneMeta" (by rw [hp]; simp)
+    simpa [pkgCheck] using this
+  · intro m hmm
+    have hall : (lintMetaFns t).all (fun fn => metaCheck fn m) = true := List.all_eq_true.mpr (h2 m hmm)
+    refine ⟨metaKindOk_within t _ hm m hall, ?_⟩
+    have hpv := (List.all_eq_true.mp hall) "PackageValidSemver" (by simpa using hv)
+    simp only [metaCheck, Bool.and_eq_true] at hpv
+    simpa using hpv.2
+  · intro o hoo
+    exact objKindOk_within t _ ho o.gvk (h3 o hoo)
+
 /-! ### installed = declared -/
 
 /-- Whenever `Establish` is reached, its object list is exactly the object list of the
@@ -96,7 +141,7 @@ theorem installed_eq_declared_history (feature : Bool) (revs : List Rev) (hc : C
       dsimp only at hest
       obtain ⟨_, _, _, p, hf, ho, hl, hcmp, _⟩ := recStep_est feature r f w.cache _ objs hest
       have hmem : r ∈ revs := List.mem_of_getElem? hr
-      exact ⟨r, p, hr, fetch_parsed r f w.cache (hw r hmem) p hf, ho, lint_within_spec _ _ hl, hcmp⟩
+      exact ⟨r, p, hr, fetch_parsed r f w.cache (hw r hmem) p hf, ho, lintS_within_spec _ _ hl, hcmp⟩
     · cases hest
 
 /-- The cache invariant holds after every prefix of every history: an entry that `Has`
@@ -175,7 +220,7 @@ theorem lint_gate (feature : Bool) (r : Rev) (f : Faults) (c : Cache) (st : RevS
   | some objs =>
     obtain ⟨_, _, _, p, hf, _, hl, _⟩ := recStep_est feature r f c st objs hest
     have := hbad p (fetch_parsed r f c hinv p hf)
-    rw [lint_within_spec _ _ hl] at this
+    rw [lintS_within_spec _ _ hl] at this
     cases this
 
 /-- A package whose Crossplane version constraints exclude the running version is never
@@ -250,7 +295,7 @@ theorem establish_needs_fresh_object (feature : Bool) (r : Rev) (f : Faults) (c 
   cases hest : (recStep true feature r f c st).2.2.est with
   | none => exact absurd hest h
   | some objs =>
-    obtain ⟨hp, hd, _, p, _, _, _, _, hu, hs, hg⟩ := recStep_est feature r f c st objs hest
+    obtain ⟨hp, hd, _, p, _, _, _, _, hu, hs, hg, _⟩ := recStep_est feature r f c st objs hest
     refine ⟨?_, hg, hu, hp, hd⟩
     cases he : f.env <;> simp [Faults.stale, he] at hs ⊢
 
@@ -478,6 +523,280 @@ theorem verify_gate_history (revs : List Rev) (w : World)
         exact inv n (Nat.le_of_lt hn) i st hst hv'
     · simp at he
 
+/-! ### the image: which stream `ImageBackend.Init` selects -/
+
+/-- `ImageBackend.Init` hands the parser a stream iff the image has at most `maxLayers`
+layers and either exactly ONE layer is annotated `io.crossplane.xpkg: base` and that layer's
+tarball holds package.yaml – the stream is that file, whatever the other layers hold – or NO
+layer is annotated and the flattened file system holds package.yaml (the last layer's that has
+one).  Two annotated layers, too many layers, no package.yaml: an error. -/
+theorem init_selects (ls : List Layer) (ds : List Doc) :
+    initSel ls = some ds ↔
+      ls.length ≤ maxLayers ∧
+      ((∃ l, ls.filter Layer.isBase = [l] ∧ l.file = some ds) ∨
+       (ls.filter Layer.isBase = [] ∧ flatFile ls = some ds)) := by
+  unfold initSel
+  rw [scanBase_spec]
+  simp only [Option.toList_none, List.nil_append]
+  by_cases hl : ls.length > maxLayers
+  · simp only [hl, if_true]
+    constructor
+    · intro h; cases h
+    · intro h; omega
+  · simp only [hl, if_false]
+    have hl' : ls.length ≤ maxLayers := by omega
+    match hf : ls.filter Layer.isBase with
+    | [] => simp [hl']
+    | [l] => simp [hl']
+    | l1 :: l2 :: rest => simp
+
+/-- The stream taken from a tarball is the content of its FIRST entry named exactly
+`package.yaml`; no entry before it has that name. -/
+theorem tar_lookup_exact (es : List (String × List Doc)) (ds : List Doc) (h : tarFind es = some ds) :
+    ∃ a b, es = a ++ (streamFile, ds) :: b ∧ ∀ e ∈ a, e.1 ≠ streamFile := by
+  induction es with
+  | nil => cases h
+  | cons e es ih =>
+    obtain ⟨n, d⟩ := e
+    unfold tarFind at h
+    by_cases hn : (n == streamFile) = true
+    · simp only [hn, if_true, Option.some.injEq] at h
+      subst h
+      exact ⟨[], es, by simp [beq_iff_eq.mp hn], by simp⟩
+    · simp only [hn, if_false] at h
+      obtain ⟨a, b, hab, hne⟩ := ih h
+      refine ⟨(n, d) :: a, b, by simp [hab], ?_⟩
+      intro e he
+      simp only [List.mem_cons] at he
+      rcases he with rfl | he
+      · simpa using hn
+      · exact hne e he
+
+/-- Entries of any other name – `.package.yaml`, `..package.yaml`, `package.yaml.bak`,
+`dir/package.yaml`, wherever they stand in the tarball and whatever they hold – do not
+matter: removing them all leaves the selected stream, hence what `ImageBackend.Init` selects
+from the whole image, unchanged. -/
+theorem tar_lookup_ignores_lookalikes (es : List (String × List Doc)) :
+    tarFind (es.filter fun e => e.1 == streamFile) = tarFind es := by
+  induction es with
+  | nil => rfl
+  | cons e es ih =>
+    obtain ⟨n, d⟩ := e
+    by_cases hn : (n == streamFile) = true
+    · simp [List.filter_cons, hn, tarFind]
+    · simp only [List.filter_cons, hn, tarFind]
+      simpa using ih
+
+theorem init_ignores_lookalikes (ls : List (Ann × List (String × List Doc))) :
+    initSel (ls.map fun l => Layer.ofTar l.1 (l.2.filter fun e => e.1 == streamFile)) =
+    initSel (ls.map fun l => Layer.ofTar l.1 l.2) := by
+  simp only [Layer.ofTar, tar_lookup_ignores_lookalikes]
+
+/-- look-alikes in front of the real file, in the annotated base layer -/
+example : initSel [Layer.ofTar .base [("README.md", [.bad]), (".package.yaml", [.empty]), ("package.yaml.bak", [.empty]),
+    ("dir/package.yaml", [.empty]), ("package.yaml", [])]] = some [] := by decide
+/-- nothing but look-alikes: rejected -/
+example : initSel [Layer.ofTar .base [(".package.yaml", [.empty]), ("../package.yaml", [.empty])]] = none := by decide
+
+/-- What a revision declares is the stream `Init` selects from its image. -/
+theorem declared_is_selected_stream (r : Rev) (h : r.imgOk = true) : initSel r.layers = some r.docs := by
+  unfold Rev.imgOk at h
+  unfold Rev.docs
+  cases hi : initSel r.layers with
+  | none => rw [hi] at h; cases h
+  | some ds => rfl
+
+/-- An image the specification calls invalid (two base layers, more than `maxLayers` layers,
+no package.yaml where it has to be) is never installed from: with nothing cached, under every
+fault plan, `Establish` is not reached and the cache stays as it is. -/
+theorem invalid_image_never_installed (feature : Bool) (r : Rev) (f : Faults) (c : Cache) (st : RevSt)
+    (himg : initSel r.layers = none) (hcold : c r.id = none) :
+    (recStep true feature r f c st).2.2.est = none ∧
+    (st.deleting = false → ∀ k, (recStep true feature r f c st).1 k = c k) := by
+  have hok : r.imgOk = false := by simp [Rev.imgOk, himg]
+  have hfetch : fetch true r f c = (c, .stop (if r.never then "err:pullnever" else "err:init") true) := by
+    unfold fetch
+    simp only [hcold, hok, Bool.not_false, Bool.or_true, if_true]
+    split <;> rfl
+  constructor
+  · cases hest : (recStep true feature r f c st).2.2.est with
+    | none => rfl
+    | some objs =>
+      obtain ⟨_, _, _, p, hf, _⟩ := recStep_est feature r f c st objs hest
+      rw [hfetch] at hf
+      cases hf
+  · intro hd k
+    rcases recStep_cache_nodelete true feature r f c st hd with h | h
+    · rw [h]
+    · rw [h, hfetch]
+
+/-! ### every step before `Establish` succeeded -/
+
+/-- `Establish` is reached only if `PullSecretFor` succeeded, an inactive revision released
+its objects, and – when dependencies are resolved – `lock.Resolve` succeeded: a failure of any
+collaborator in front of it, of whatever error class, stops the reconcile. -/
+theorem establish_needs_every_step (feature : Bool) (r : Rev) (f : Faults) (c : Cache) (st : RevSt)
+    (h : (recStep true feature r f c st).2.2.est ≠ none) :
+    f.pullCfg = false ∧ (st.active = false → f.rel = .ok) ∧ (r.resolve = true → f.dep = .ok) := by
+  cases hest : (recStep true feature r f c st).2.2.est with
+  | none => exact absurd hest h
+  | some objs =>
+    obtain ⟨_, _, _, p, _, _, _, _, _, _, _, he, hdep⟩ := recStep_est feature r f c st objs hest
+    refine ⟨?_, ?_, hdep⟩
+    · cases hp : f.pullCfg
+      · rfl
+      · simp [early, hp] at he
+    · intro ha
+      cases hp : f.pullCfg
+      · cases hr : f.rel <;> simp [early, hp, ha, hr] at he ⊢
+      · simp [early, hp] at he
+
+/-! ### the tee into the cache (`teeReadCloser`, reader.go)
+
+For every source script (bytes and ok / EOF / failure per read, in any order), every byte at
+which the writer – the pipe into `cache.Store` – starts failing, and every consumer (any
+number of reads, also one that overlooks errors and reads on, as the YAML line reader does). -/
+
+/-- Once a read reported a failure – of the source or of the writer – every later read reports
+the same failure and hands out nothing: a consumer that overlooks the error cannot carry on
+with the rest of the stream, nor see a clean EOF. -/
+theorem tee_error_sticky (t : Tee) (h : t.err = none) (he : (t.read true).1.2.isErr = true) (n : Nat) :
+    ∀ r ∈ (Tee.reads true n (t.read true).2).1, r = ([], (t.read true).1.2) := by
+  rcases read_err_cases t h with ⟨hc, _⟩ | ⟨_, hs⟩
+  · rw [hc] at he; cases he
+  · exact (reads_of_err _ _ hs n).2
+
+/-- The consumer is handed exactly the bytes the writer accepted, read by read (also by the
+reader without the fix). -/
+theorem tee_seen_eq_written (sticky : Bool) (n : Nat) (t : Tee) :
+    (Tee.reads sticky n t).2.out = t.out ++ seenBytes (Tee.reads sticky n t).1 :=
+  reads_out sticky n t
+
+/-- A consumer that reaches a clean EOF with its `k+1`-th read was handed – and the cache was
+handed – exactly the bytes of the first `k+1` reads of the source, none of which failed: the
+parser ends normally only on the whole stream, whatever it overlooked on the way. -/
+theorem tee_clean_eof_complete (k : Nat) (t : Tee) (h : t.err = none) (d : List Nat)
+    (hl : (Tee.reads true (k + 1) t).1.getLast? = some (d, .eof)) :
+    seenBytes (Tee.reads true (k + 1) t).1 = srcBytes (t.src.take (k + 1)) ∧
+    (Tee.reads true (k + 1) t).2.out = t.out ++ srcBytes (t.src.take (k + 1)) ∧
+    (∀ e ∈ t.src.take (k + 1), e.res.isErr = false) := by
+  obtain ⟨h1, h2⟩ := reads_eof k t h d hl
+  exact ⟨h1, by rw [reads_out, h1], h2⟩
+
+/-- a five-byte stream in two reads and an EOF, the writer failing at its third byte -/
+def wTee : Tee := { src := [⟨[1, 2, 3], .ok⟩, ⟨[4, 5], .ok⟩, ⟨[], .eof⟩], cap := some 2 }
+
+/-- D18 on the model of the reader without the fix: a consumer that overlooks the write error
+twice reaches a clean EOF having seen two of five bytes; with the fix its third read still
+reports the write error. -/
+theorem tee_clean_eof_fails_on_unfixed_witness :
+    (Tee.reads false 3 wTee).1.getLast? = some ([], .eof) ∧ seenBytes (Tee.reads false 3 wTee).1 = [1, 2] ∧
+    (Tee.reads true 3 wTee).1.getLast? = some ([], .writeErr) := by decide
+
+/-- the hypotheses are met: a clean EOF after three reads of an unfailing writer -/
+example : (Tee.reads true 3 { wTee with cap := none }).1.getLast? = some ([], .eof) ∧
+    seenBytes (Tee.reads true 3 { wTee with cap := none }).1 = [1, 2, 3, 4, 5] := by decide
+example : ((wTee.read true).1.2.isErr = true) := by decide
+
+/-! ### how the stream falls into documents (YAML reader + `isEmptyYAML`)
+
+The revisions of the correspondence run get their document list from the LINES of the rendered
+stream (`docsOfLines`, classified by a tokenizer of the harness that knows nothing of how the
+stream was rendered). -/
+
+/-- At a separator line the reader hands out the lines it collected – one document – and
+starts afresh with what follows. -/
+theorem split_at_separator (tbl : List Doc) (g b : List Line) (p : Bool)
+    (hg : ∀ l ∈ g, l.isSep = false) (hne : g ≠ []) :
+    docsOfLines tbl (g ++ .sep p :: b) =
+      (docsOfLines tbl b).map fun ds => (if chunkEmpty g then [] else [docOfChunk tbl g]) ++ ds := by
+  unfold docsOfLines
+  rw [chunks_at_sep g b [] p hg (by simpa using hne)]
+  cases chunks b [] with
+  | none => rfl
+  | some cs => by_cases he : chunkEmpty g <;> simp [List.filter_cons, he]
+
+/-- Lines that are only blanks and comments are no document. -/
+theorem split_skips_empty (tbl : List Doc) (cs : List Line) (h : ∀ l ∈ cs, l = .comment ∨ l = .blank) :
+    docsOfLines tbl cs = some [] :=
+  docs_empty tbl cs h
+
+/-- The payload lines of document `i`, with comments and blank lines among them, are document `i`. -/
+theorem split_one_document (tbl : List Doc) (c : List Line) (i : Nat)
+    (hc : ∀ l ∈ c, l = .comment ∨ l = .blank ∨ l = .body i) (hb : Line.body i ∈ c) :
+    docsOfLines tbl c = some [(tbl[i]?).getD .bad] :=
+  docs_one tbl c i hc hb
+
+/-- Hence a document of blanks and comments between two documents never changes what is parsed. -/
+theorem parse_ignores_empty_documents (tbl : List Doc) (g cs b : List Line) (p q : Bool)
+    (hg : ∀ l ∈ g, l.isSep = false) (hne : g ≠ [])
+    (h : ∀ l ∈ cs, l = .comment ∨ l = .blank) (hcs : cs ≠ []) :
+    parseLines tbl (g ++ .sep p :: (cs ++ .sep q :: b)) = parseLines tbl (g ++ .sep p :: b) := by
+  unfold parseLines
+  rw [split_at_separator tbl g _ p hg hne, split_at_separator tbl g b p hg hne,
+    split_at_separator tbl cs b q (by intro l hl; rcases h l hl with rfl | rfl <;> rfl) hcs]
+  have : chunkEmpty cs = true := by
+    simp only [chunkEmpty, List.all_eq_true]
+    intro l hl
+    rcases h l hl with rfl | rfl <;> rfl
+  cases docsOfLines tbl b <;> simp [this]
+
+/-- a malformed separator makes the whole stream undecodable -/
+theorem split_bad_separator (tbl : List Doc) (a b : List Line) (h : ∀ l ∈ a, l.isSep = false) :
+    parseLines tbl (a ++ .badsep :: b) = none := by
+  have : chunks (a ++ .badsep :: b) [] = none := by
+    rw [chunks_nosep_append a _ [] h]
+    simp [chunks]
+  simp [parseLines, docsOfLines, this]
+
+/-- a stream with a leading bare separator and comment, a doubled separator, a comment-only
+document and a trailing separator: two documents -/
+example : docsOfLines [.md ⟨"m", "a", .none⟩, .ob ⟨"k", "b"⟩]
+    [.sep true, .comment, .body 0, .body 0, .sep true, .sep true, .blank, .comment, .sep false, .body 1, .sep true] =
+    some [.md ⟨"m", "a", .none⟩, .ob ⟨"k", "b"⟩] := by decide
+
+/-- What the code does with a separator line that carries a comment and has nothing in front of
+it (first line of the stream, or behind another separator): the reader collects the line itself,
+`isEmptyYAML` does not pass over it, and when only comments follow the chunk does not decode –
+the package fails to parse (found by the correspondence; it fails closed). -/
+theorem commented_separator_before_comments_is_undecodable :
+    parseLines [.md ⟨"m", "a", .none⟩] [.sep false, .comment, .sep true, .body 0] = none ∧
+    parseLines [.md ⟨"m", "a", .none⟩] [.sep true, .comment, .sep true, .body 0] = some ⟨[⟨"m", "a", .none⟩], []⟩ := by
+  decide
+
+/-! ### the call skeletons the model mirrors are those of the current tree
+
+`Xp.Gen.c15Skel*` are regenerated from the Go source on every run (go/ast,
+harness/main/c15_dump.go); the right-hand sides are declared in Xp/Model/C15Skel.lean with,
+per entry, the model step that mirrors it. -/
+
+/-- revision `Reconciler.Reconcile`: Get, pause, deletion (cache.Delete, RemoveSelf, RemoveFinalizer),
+verification gate, AddFinalizer, PullSecretFor, deactivation + inactive shortcut, cache.Has/Get/Delete,
+backend.Init, tee into cache.Store, Parse, CloseWithError, Delete, Lint, one-meta, Update, version gate,
+Resolve, hooks, Establish, SetObjects, Healthy -/
+theorem skeleton_reconcile : Xp.Gen.c15SkelReconcile = skelReconcile := by decide
+theorem skeleton_deactivate : Xp.Gen.c15SkelDeactivate = skelDeactivate := by decide
+/-- `ImageBackend.Init`: layer limit, one annotated base layer or the flattened file system, package.yaml -/
+theorem skeleton_image_init : Xp.Gen.c15SkelImageInit = skelImageInit := by decide
+theorem skeleton_cache_has : Xp.Gen.c15SkelCacheHas = skelCacheHas := by decide
+theorem skeleton_cache_get : Xp.Gen.c15SkelCacheGet = skelCacheGet := by decide
+theorem skeleton_cache_store : Xp.Gen.c15SkelCacheStore = skelCacheStore := by decide
+theorem skeleton_cache_delete : Xp.Gen.c15SkelCacheDelete = skelCacheDelete := by decide
+theorem skeleton_gzip_reader : Xp.Gen.c15SkelGzipReadCloser = skelGzipReadCloser ∧
+    Xp.Gen.c15SkelGzipRead = skelGzipRead ∧ Xp.Gen.c15SkelGzipClose = skelGzipClose := by decide
+/-- `teeReadCloser`: Read returns a recorded error first (sticky), Close closes source then writer -/
+theorem skeleton_tee : Xp.Gen.c15SkelTeeNew = skelTeeNew ∧ Xp.Gen.c15SkelTeeRead = skelTeeRead ∧
+    Xp.Gen.c15SkelTeeClose = skelTeeClose := by decide
+theorem skeleton_sig_reconcile : Xp.Gen.c15SkelSigReconcile = skelSigReconcile := by decide
+theorem skeleton_config_store : Xp.Gen.c15SkelVerifCfgFor = skelVerifCfgFor ∧
+    Xp.Gen.c15SkelBestMatch = skelBestMatch := by decide
+/-- the checks the version / constraint gates are made of -/
+theorem skeleton_lint_checks : Xp.Gen.c15SkelOneMeta = skelOneMeta ∧ Xp.Gen.c15SkelCompatible = skelCompatible ∧
+    Xp.Gen.c15SkelValidSemver = skelValidSemver ∧ Xp.Gen.c15SkelTryConvert = skelTryConvert ∧
+    Xp.Gen.c15SkelTryConvertToPkg = skelTryConvertToPkg ∧ Xp.Gen.c15SkelInConstraints = skelInConstraints := by decide
+/-- every conversion of package metadata goes to hubs allocated at the call site -/
+theorem hubs_are_fresh_literals : Xp.Gen.c15HubArgs = hubArgs := by decide
+
 /-! ### the pinned tree (without fixes/D6.diff) violates the property -/
 
 def wCRD : String := "apiextensions.k8s.io/v1/CustomResourceDefinition"
@@ -485,9 +804,9 @@ def wCRD : String := "apiextensions.k8s.io/v1/CustomResourceDefinition"
 /-- a Provider package declaring four CRDs -/
 def wRev : Rev :=
   { ptype := .provider, key := "/cache/pkg-d6.gz", skey := "/cache/src.gz",
-    docs := [.md ⟨"meta.pkg.crossplane.io/v1/Provider", "pkg", .none⟩,
-             .ob ⟨wCRD, "a"⟩, .ob ⟨wCRD, "b"⟩, .ob ⟨wCRD, "c"⟩, .ob ⟨wCRD, "d"⟩],
-    imgOk := true, never := false, ignore := false }
+    layers := [⟨.base, some [.md ⟨"meta.pkg.crossplane.io/v1/Provider", "pkg", .none⟩,
+             .ob ⟨wCRD, "a"⟩, .ob ⟨wCRD, "b"⟩, .ob ⟨wCRD, "c"⟩, .ob ⟨wCRD, "d"⟩]⟩],
+    never := false, ignore := false }
 
 /-- first pull: the registry connection breaks on the document boundary in front of the
 third CRD; second reconcile: no fault at all -/
@@ -560,4 +879,19 @@ example : ((World.run true true [wRev] { wWorld with sts := [{ verif := .skipped
     [.reconcile 0 true false { env := .wipe }, .reconcile 0 true false {}]).2.map
     (fun o => (o.res, o.est.map List.length))) = [("requeue", none), ("ok", none)] := by decide
 
+example : (recStep true false wRev { pullCfg := true } Cache.empty {}).2.2 = { res := "err:pullcfg" } := by decide
+example : (recStep true false wRev { rel := .conflict } Cache.empty { active := false }).2.2 = { res := "requeue" } := by decide
+example : (recStep true false { wRev with resolve := true } { dep := .err } Cache.empty {}).2 =
+    ({ finalizer := true, health := .unknown }, { res := "err:deps" }) := by decide
+/-- an annotated base layer LAST, behind unannotated layers that carry other package.yaml files -/
+example : initSel [⟨.none, some [.bad]⟩, ⟨.other, some []⟩, ⟨.base, some [.empty]⟩] = some [.empty] := by decide
+example : initSel [⟨.none, some [.bad]⟩, ⟨.other, some [.empty]⟩, ⟨.none, none⟩] = some [.empty] := by decide
+example : initSel [⟨.base, some [.bad]⟩, ⟨.base, some []⟩] = none := by decide
+
+/-- the structural linter passes an installable Provider package -/
+example : lintS .provider ⟨[⟨"meta.pkg.crossplane.io/v1/Provider", "p", .none⟩], [⟨wCRD, "a"⟩]⟩ = true := by decide
+example : lintS .function ⟨[⟨"meta.pkg.crossplane.io/v1/Function", "p", .none⟩], [⟨"apiextensions.crossplane.io/v1/Composition", "a"⟩]⟩ = false := by decide
+/-- the witness revision's image is valid: one annotated base layer holding package.yaml -/
+example : wRev.imgOk = true ∧ (parse wRev.docs).isSome = true := by decide
+example : tarFind [(".package.yaml", [.bad]), ("package.yaml", [.empty]), ("package.yaml", [])] = some [.empty] := by decide
 end Xp.C15
